@@ -40,6 +40,51 @@ Theorem C08_install_membership_from_header : forall cur cached header,
   install_membership cur cached header = header.
 Proof. exact install_membership_from_header. Qed.
 
+(** ---- round 7: what happens AFTER the install ---- *)
+
+(** a retried install of the same snapshot changes nothing *)
+Theorem C08_install_idempotent : forall recs live k,
+  install recs (install recs live) k = install recs live k.
+Proof. exact install_idempotent. Qed.
+
+(** a node that falls behind twice: exact state after the second install *)
+Theorem C08_install_twice_exact : forall leader1 recs1 leader2 recs2,
+  (forall k, find_last recs1 k = leader1 k) -> (forall k, find_last recs2 k = leader2 k) ->
+  forall live k,
+  install recs2 (install recs1 live) k =
+  match leader2 k with
+  | Some v => Some v
+  | None => match leader1 k with Some v => Some v | None => live k end
+  end.
+Proof. exact install_twice_exact. Qed.
+
+Theorem C08_install_twice_serves : forall leader1 recs1 leader2 recs2,
+  (forall k, find_last recs1 k = leader1 k) -> (forall k, find_last recs2 k = leader2 k) ->
+  (forall k, leader1 k <> None -> leader2 k <> None) ->
+  forall k, install recs2 (install recs1 st_init) k = leader2 k.
+Proof. exact install_twice_serves. Qed.
+
+(** "and keeps doing so": the committed writes after the snapshot keep follower and leader equal,
+    on the live node and after a restart at any later time *)
+Theorem C08_install_then_follow : forall leader recs ws live,
+  (forall k, find_last recs k = leader k) ->
+  (forall k, live k <> None -> leader k <> None) ->
+  forall k, apply_writes ws (install recs live) k = apply_writes ws leader k.
+Proof. exact install_then_follow. Qed.
+
+Theorem C08_restart_then_follow : forall leader recs ws,
+  (forall k, find_last recs k = leader k) ->
+  forall k, apply_writes ws (restart_after_install recs) k = apply_writes ws leader k.
+Proof. exact restart_then_follow. Qed.
+
+(** the recorded finding is confined: a key can differ from the leader after an install only if the
+    leader dropped it and the follower still held it, and a restart heals it *)
+Theorem C08_install_stale_only_dropped : forall leader recs live k,
+  (forall k, find_last recs k = leader k) ->
+  install recs live k <> leader k ->
+  leader k = None /\ live k <> None /\ restart_after_install recs k = None.
+Proof. exact install_stale_only_dropped. Qed.
+
 (** The log side of an install whose snapshot covers the whole local log (delete_through = None ->
     SplitOff(u64::MAX), then InstallSnapshotPointerLog), on the RaftLogManager model, for EVERY tidy
     manager state: the catalogue becomes one fresh file that starts at the snapshot index and holds
